@@ -380,6 +380,7 @@ class FakePopen(object):
         self._k = kernel
         kp = kernel.spawn(args, cwd=cwd, env=env, close_fds=close_fds, shell=shell,
                           executable=executable, stdout=stdout, stderr=stderr)
+        kp.passed_fds = tuple(kw.get('pass_fds', ()))
         self._kp = kp
         self.pid = kp.pid
         self.returncode = None
